@@ -6,8 +6,10 @@ marker is set to the identity of the peer that was written to; (R08.2) REQ recv 
 without reading; the marker is cleared only after the last suspension point of recv (the reply, or the failure,
 is in hand); (R08.3) REP send writes only when a requester is recorded, to the peer-table entry looked up with
 exactly that identity; without one it returns the message untouched and writes nothing; (R08.4) REP recv
-records as requester the queue key of the very item whose message it returns, and only on the Ok exit.
-Does NOT decide concurrent-client histories (argued from R08.3/R08.4 + C05)."""
+records as requester the queue key of the very item whose message it returns, and only on the Ok exit; (R08.5) one
+peer-table entry per connection - an anonymous or empty announced identity gets a fresh unique key (C04 R04.3) and a client
+reconnecting under the same identity replaces its entry (C04 R04.4, REP backend), both re-evaluated: otherwise one
+client's reply is written to another's connection. Does NOT decide concurrent-client histories (argued from R08.3/R08.4 + C05)."""
 from ..sym import show, walk_expr
 from ..common import short, store_hits, place_text
 from .. import pathq
@@ -23,6 +25,7 @@ RULES = {
     "R08.2": "REQ recv: None marker -> Err without any read; marker cleared only after the last await",
     "R08.3": "REP send: write only under Some(requester), to the entry looked up by that id; None -> message returned untouched",
     "R08.4": "REP recv: requester := key of the returned item, stored only on the Ok exit",
+    "R08.5": "one peer-table entry per connection: fresh unique key for anonymous clients (C04 R04.3), overwrite on reconnect (C04 R04.4)",
 }
 
 
@@ -55,6 +58,25 @@ def is_marker(x, name):
         else:
             break
     return isinstance(x, tuple) and x and x[0] == "field" and place_text(x).endswith("." + name)
+
+
+def strip_view(x):
+    """the value behind `&x`, `x.clone()`, `*x`, a cast (still the same identity value)"""
+    while isinstance(x, tuple) and x:
+        if x[0] in ("ref", "deref", "cast"):
+            x = x[1]
+        elif x[0] in ("call", "pure") and short(x[1]) in ("clone", "as_ref", "borrow", "to_owned") and not x[1].endswith("}") and len(x[2]) == 1:
+            x = x[2][0]
+        else:
+            break
+    return x
+
+
+def is_marker_payload(x, name):
+    """x IS the identity held in the marker (the Some payload of the marker field, possibly taken / cloned / borrowed),
+    not merely something computed from it"""
+    x = strip_view(x)
+    return isinstance(x, tuple) and x and x[0] == "field" and x[1][0] == "downcast" and x[1][2] == "Some" and is_marker(x[1][1], name)
 
 
 def marker_decisions(p, name, upto=None):
@@ -123,7 +145,11 @@ def run(ctx, f, rep):
                     # the id stored is the one popped from the rotation and used for the lookup of the written entry
                     popped = pathq.mentions_call(v, lambda x: short(x[1]) == "pop" and "SegQueue" in x[1])
                     looked = lookup_call(wev.args[0])
-                    same = popped is not None and looked is not None and any(y == popped for y in walk_expr(looked))
+                    # the lookup key IS the popped id (its Some payload), and so is the id stored in the marker
+                    def is_popped(x):
+                        x = strip_view(x)
+                        return x[0] == "field" and x[1][0] == "downcast" and x[1][2] == "Some" and x[1][1] == popped
+                    same = popped is not None and looked is not None and len(looked[2]) > 1 and is_popped(looked[2][1]) and v[4] and is_popped(v[4][0])
                     ok = some_id and same and si > wi
                     why = "stores Some(id)=%s, id is the popped/looked-up peer=%s, after the write=%s" % (some_id, same, si > wi)
                 rep.check(ok, "R08.1", "R08.1|marker-set-to-written-peer", "after a successful write the marker names the peer written to (%s)" % why, co.loc())
@@ -163,7 +189,7 @@ def run(ctx, f, rep):
                 nw += 1
                 dec = marker_decisions(p, mrep, ev.ncond)
                 looked = lookup_call(ev.args[0])
-                key_from_marker = looked is not None and len(looked[2]) > 1 and any(isinstance(x, tuple) and x and x[0] == "field" and x[2] == mrep for x in walk_expr(looked[2][1]))
+                key_from_marker = looked is not None and len(looked[2]) > 1 and is_marker_payload(looked[2][1], mrep)
                 rep.check(dec and dec[0] is True and key_from_marker, "R08.3", "R08.3|reply-to-requester",
                           "REP writes the reply only when a requester is recorded (%s) and to the entry looked up with that identity (%s)" % (dec, key_from_marker), co.loc(ev.bb))
             dec = marker_decisions(p, mrep)
@@ -204,3 +230,21 @@ def run(ctx, f, rep):
             elif rk == "Err":
                 rep.check(not st, "R08.4", "R08.4|err-exit-keeps-requester", "an error exit of REP recv does not change the recorded requester (stores=%d)" % len(st), co.loc())
         rep.floor("R08.4", "Ok exits of REP recv", nok, 1)
+    # ---------------- R08.5: "every client receives the replies to its own requests and nobody else's" needs one table entry per
+    # connection: an anonymous client (no Identity, or an empty one as libzmq announces) gets a fresh unique key (C04 R04.3), and a
+    # client that comes back under the same identity replaces its old entry (C04 R04.4 for the REP backend) - re-evaluated here
+    from . import c04
+    from ..report import Report
+    sub = Report("C08", rep.config)
+    c04.check_identity(f, sub)
+    n = 0
+    for o in sub.obls:
+        n += 1
+        (rep.ok if o.ok else rep.bad)("R08.5", o.key.replace("R04.3", "R08.5", 1), o.what, o.loc, o.detail)
+    sub = Report("C08", rep.config)
+    c04.check_registration(f, sub)
+    for o in sub.obls:
+        if "RepSocketBackend" in o.key and o.rule == "R04.4":
+            n += 1
+            (rep.ok if o.ok else rep.bad)("R08.5", o.key.replace("R04.4", "R08.5", 1), o.what, o.loc, o.detail)
+    rep.floor("R08.5", "identity / registration obligations re-evaluated", n, 5)
